@@ -61,9 +61,9 @@ func (c13Engine) Name() string     { return "envsim/planted-fault-location" }
 func (c13Engine) Level() string    { return "fault_enumeration" }
 func (c13Engine) Count(tier string) int {
 	if tier == "thorough" {
-		return 120000
+		return 1200000
 	}
-	return 5000
+	return 60000
 }
 func (c13Engine) Rule() string {
 	return "Scenario i from H(VERIF_SEED,'C13',i): a typed random program of the mini-expr fragment with several guarded operations (external calls, division/modulo, indexing, member access, run-time patterns, dynamic operands, also inside closures), printed over several lines with multi-byte string literals, run against a HEALTHY environment (fault-free run succeeds). One fault is planted per evaluation, every site in turn (thorough: every call index and every data variant; quick: up to 4 call indices + all data variants): call k fails (seeded fault kind), or one datum is bad (zero divisor / index out of range / nil link / invalid pattern / string in a dynamic int), or a ConstExpr call is poisoned at compile time. The reference evaluator names the failing node; oracle on the returned *file.Error: non-empty location inside the source; location inside the failing node's printed span and outside every nested non-leaf operation's span; snippet line equals source line Line. Non-trivial = the program has at least 3 candidate operations and the fault fired; distinct = distinct (source, layout, env, site) signatures."
